@@ -41,7 +41,7 @@ PROPS = {
         manifest_level="proof",
         claim="All size computations of src/chunk/size_config.rs carry contracts proved by Verus for every header layout (align>=16,size>=32), hint, layout and direction: multiples of 16 (and of the header alignment downwards), large enough for header+request, None exactly on mathematical overflow (never wraps); lemma fresh_chunk_fits composes them with the C11 contracts: whatever is granted, the layout that caused a chunk is allocatable in it; grow_doubles gives >= 2*prev-16. Kani re-checks each function on the full domain and the whole chain on a stated bounded domain.",
         note="Trusted: as C11 plus assume_specification for usize::checked_next_power_of_two; cfg_valid (header align>=16, size>=32, multiple of align; overhead layout (16,8)) is what repr(C,align(16)) ChunkHeader<A> yields - checked per instantiation by Kani under C10. The end-to-end Kani chain harness is bounded (bound in evidence) and is not what the claim rests on.",
-        not_covered=["pointer glue of NonDummyChunk::new/append_for (header placement) is checked by Kani harnesses under C10/C05, per instantiation"],
+        not_covered=["pointer glue of NonDummyChunk::new/append_for (header placement) is checked by Kani harnesses under C10/C05, per instantiation", "the growth rule (a later chunk >= twice the previous less 16) for chunks in the page-multiple regime (>= 4 KiB): NonDummyChunk::grow_size is pointer glue outside the Verus kernel and page-sized chunks exhaust CBMC; checked for the power-of-two regime only (seed C12b)"],
     ),
     "C01": dict(
         level="other",
@@ -118,7 +118,7 @@ PROPS = {
         technique="Verus lemmas (hint independence of bump_up/bump_down, proved for all inputs) + relational Kani obligations: each entry point against RawBump::alloc with the layout it stands for, from the same arbitrary state",
         claim="Hint independence (the typed fast paths compute the same block and position as the generic layout path) is proved for all inputs by Verus (c11_up_hints / c11_down_hints). Kani then shows for 15 entry points (alloc_sized, alloc_slice, alloc_slice_for, allocator_impl::allocate, Allocator::allocate through BumpScope / &BumpScope / WithoutDealloc / nested wrappers / dyn BumpAllocatorCore, try_allocate_layout / try_allocate_sized typed and dyn, try_alloc, the panicking alloc, try_alloc_slice_copy) that from the same state they give the same success, address, new position and current chunk as the layout path, and equal stored values. Bounded (one 112-byte chunk, small layouts).",
         note="Entry-point pairs not in the list (Bump vs BumpScope inherent methods generated by forward_methods!, MutBump* traits, the remaining try_/panicking twins) are not covered. Bump is repr(transparent)-compatible with BumpScope but that cast is not exercised here.",
-        not_covered=["forward_methods! inherent methods of Bump/BumpScope", "collections' entry points", "pairs not listed in the evidence samples"],
+        not_covered=["forward_methods! inherent methods of Bump/BumpScope other than the ones listed (the provided trait methods they forward to ARE covered against the contract stub, incl. panicking-vs-try twins)", "alloc_fmt* / alloc_cstr_fmt* (core::fmt exhausts CBMC; seed C17b)", "pairs not listed in the evidence samples"],
     ),
     "C16": dict(
         level="other",
@@ -146,7 +146,7 @@ PROPS = {
         technique="per-operation refinement contracts against std::string::String over symbolic UTF-8 text with a concrete byte-length pattern, every index enumerated, checked by Kani; independent UTF-8 validator cross-checked against core::str::from_utf8",
         claim="For text of up to two characters with every combination of UTF-8 lengths (1-4 bytes each; all scalar values of those lengths symbolic) BumpBox<str>::{truncate, split_off, remove, pop} at every boundary index return the same characters and leave the same bytes as std::string::String, and the contents stay valid UTF-8; every out-of-range or non-boundary index makes truncate/split_off/remove panic (never return); FixedBumpString::{try_insert, try_insert_str, try_push_str, try_replace_range} succeed iff the result fits the fixed capacity, equal String on success and leave the contents unchanged on failure; BumpBox::from_utf8 accepts exactly what core::str::from_utf8 accepts (all byte strings of length 2-4).",
         note="Bounded: <=2 characters (<=8 bytes), the length pattern is concrete per obligation (a symbolic pattern did not finish in CBMC). BumpString growth (try_push, try_push_str, try_insert, try_insert_str, try_extend_from_within, try_replace_range, try_reserve, shrink_to_fit; bad indices panic) is covered against the allocator contract stub (h_stub). MutBumpString, retain, drain, extend_from_within, from_utf16(_lossy), from_utf8_lossy, formatting, C-string constructors and UTF-8 validity after a panic are NOT covered.",
-        not_covered=["MutBumpString", "retain, drain, extend_from_within, from_utf8_lossy, from_utf16(_lossy), formatting, alloc_cstr* / into_cstr", "validity after an operation that panicked (no unwinding semantics)", "texts longer than two characters"],
+        not_covered=["from_utf8_lossy / from_utf16* (no verdict in CBMC; seed C09c)", "retain, drain, extend_from_within, from_utf8_lossy, from_utf16(_lossy), formatting, alloc_cstr* / into_cstr", "validity after an operation that panicked (no unwinding semantics)", "texts longer than two characters"],
     ),
 }
 
